@@ -237,10 +237,30 @@ class ColumnValidateRestoresSchema(Contract):
             allowed = ["returns", "OtherException"] + (["SchemaError"] if not lazy else []) + (["SchemaErrors"] if lazy and not drop else [])
             outs = [o for o in OUTCOMES if o[0] in allowed]
             k = p.choose([(nm, None) for nm, _ in outs], f"array.validate#{n}")
+            # what it returns / carries (ArrayValidate: `returns_the_checked_object`, `carries_the_checked_object`; ArrayRunParsers: the
+            # checked object of a table argument is the parsed COLUMN when the schema has parsers, else the table)
+            parsed_column = isinstance(check_obj, PL.FrameVal) and len(fld(schema, "parsers")) > 0
+            def checked():
+                if parsed_column:
+                    # the parsed column: values are the parser's, rows are the argument's rows (all of them, or those drop_invalid_rows kept)
+                    keep = z3.Function(cur().fresh_name("row_kept"), z3.IntSort(), z3.BoolSort())
+                    base = PL.SeriesVal.fresh(f"parsed_column#{n}", "real", space=check_obj.space)
+                    v = base.derive(sel=lambda i, f=check_obj, keep=keep: z3.And(f._sel(i), keep(i)))
+                else:
+                    v = PL.FrameVal.fresh(f"validated#{n}", pre=False)
+                v.pre = False
+                p.ghost.setdefault("validated_objects", []).append(v)
+                return v
+
             if outs[k][0] == "returns":
-                return PL.FrameVal.fresh(f"validated#{n}", pre=False)
+                return checked()
             exc = I.make_exc(outs[k][1])
             exc.attrs["__from_callback__"] = ("array.validate", n)
+            if outs[k][0] == "SchemaErrors":
+                exc.attrs["data"] = checked()
+                fe = I.make_exc(SchemaError)
+                fe.attrs["reason_code"] = SchemaErrorReason.DATAFRAME_CHECK
+                exc.attrs["schema_errors"] = ListObj([fe])
             raise PyExc(exc)
 
         I.models[id(AB.validate)] = array_validate
@@ -283,13 +303,28 @@ class ColumnValidateRestoresSchema(Contract):
     def modifies(self, self_, check_obj, schema, lazy, inplace):
         return [(check_obj, "data")] if inplace else []
 
-    def ensures(self, result, old, **a):
-        return {"returns_a_table": isinstance(result, PL.FrameVal)}
+    def ensures(self, result, old, self_, check_obj, schema, lazy, inplace):
+        out = {"returns_a_table": isinstance(result, PL.FrameVal)}
+        if isinstance(result, PL.FrameVal) and len(fld0(schema, "parsers")) > 0:
+            # C03: what is returned went through the column's parsers - every column value written back is a parsed column handed
+            # back by the field validation (never None, never something else)
+            out.update(self._written_back(result))
+        return out
+
+    def _written_back(self, frame):
+        vals = cur().ghost.get("validated_objects", [])
+        written = [v for k, v in frame.overrides.items()]
+        bad = [v for v in written if not any(v is x for x in vals) and not isinstance(v, PL.SeriesVal)]
+        return {"only_parsed_columns_are_written_back": not bad}
 
     def on_raise(self, exc, old, self_, check_obj, schema, lazy, inplace):
         out = {}
         if exc.cls is SchemaErrors:
             out["collected_errors_only_when_lazy"] = lazy is True
+            data = exc.attrs.get("data")
+            if isinstance(data, PL.FrameVal) and len(fld0(schema, "parsers")) > 0:
+                # the frame the error carries is what a caller (the container with drop_invalid_rows) goes on with
+                out.update(self._written_back(data))
         if exc.cls is SchemaError:
             # (a regex that matches no column is reported as a single INVALID_COLUMN_NAME error in both modes)
             out["single_error_only_when_eager_or_regex_without_match"] = lazy is False or cur().ghost.get("regex_no_match", False)
